@@ -79,7 +79,7 @@ func toEntries(l []uint64) be.Entries {
 func nlistlist(ls [][]uint64) string {
 	s := make([]string, len(ls))
 	for i, l := range ls {
-		s[i] = nlist(l)
+		s[i] = nlistCompact(l)
 	}
 	return listl(s)
 }
@@ -87,7 +87,7 @@ func nlistlist(ls [][]uint64) string {
 func init() {
 	props["C12"] = &propDef{
 		header:    "From BE Require Import Corr.CheckC12.",
-		rule:      "random sorted lists with duplicates (length 0..300, so every gallop/bisect boundary is hit) x target sequences (monotone and not, at/around members, beyond the end, the sentinel); groups of 1..5 lists; cursor sets of 0..48 for Sort (plus arrangements of 9..64 cursors: small heads at every position among equal ones, reversed, rotated, exhausted in front); thorough adds every sorted list over {1..5} of length <= 6 x every pair of targets 0..6. Non-trivial = the list(s) are non-empty and at least one call actually moves a cursor; distinct = distinct input",
+		rule:      "a 17 000-entry list with a single hop of 2^14+1 positions from an advanced cursor (thorough: a 40 000-entry list, hops of 2^k+-1 up to 2^15+1, also inside a field cursor); random sorted lists with duplicates (length 0..300, so every gallop/bisect boundary is hit) x target sequences (monotone and not, at/around members, beyond the end, the sentinel); groups of 1..5 lists; cursor sets of 0..48 for Sort (plus arrangements of 9..64 cursors: small heads at every position among equal ones, reversed, rotated, exhausted in front); thorough adds every sorted list over {1..5} of length <= 6 x every pair of targets 0..6. Non-trivial = the list(s) are non-empty and at least one call actually moves a cursor; distinct = distinct input",
 		shardSize: 500,
 		gen: func(tier string, r *Rand, add func(in interface{})) {
 			// corpus: the list of the unit test and boundary shapes
@@ -95,6 +95,32 @@ func init() {
 			add(c12In{K: "cur", Lists: [][]uint64{{}}, Ts: []uint64{0, 5, nullEntry}})
 			add(c12In{K: "cur", Lists: [][]uint64{{5}}, Ts: []uint64{5, 6}})
 			add(c12In{K: "cur", Lists: [][]uint64{{5, 5, 5, 5, 5, 5, 5, 5, 5, 6}}, Ts: []uint64{6}})
+			// long lists: single hops of 2^k +- 1 positions up to 2^15+1 (galloping doubles its stride that far), from the
+			// start and from an advanced cursor, as a cursor and as a member of a field cursor
+			{
+				mkLong := func(L int) []uint64 {
+					long := make([]uint64, L)
+					for i := range long {
+						long[i] = uint64(3*i + 1)
+					}
+					return long
+				}
+				long := mkLong(17000)
+				add(c12In{K: "cur", Lists: [][]uint64{long}, Ts: []uint64{long[300] - 1, long[300+16385] - 1, long[16999] + 5}})
+				if tier == "thorough" {
+					long = mkLong(40000)
+					var ts []uint64
+					pos := 0
+					for _, hop := range []int{1, 1023, 1025, 4096, 16383, 16385} {
+						pos += hop
+						ts = append(ts, long[pos]-1) // lands on position pos
+					}
+					add(c12In{K: "cur", Lists: [][]uint64{long}, Ts: ts})
+					add(c12In{K: "cur", Lists: [][]uint64{long}, Ts: []uint64{long[16385], long[16385+16384], long[39999], long[39999] + 5}})
+					add(c12In{K: "cur", Lists: [][]uint64{long}, Ts: []uint64{long[32769] - 2}})
+					add(c12In{K: "fc", Lists: [][]uint64{long, {50000, 120000}}, Ts: []uint64{long[16390] - 1, long[33000]}})
+				}
+			}
 			n := 700
 			if tier == "thorough" {
 				n = 60000
@@ -215,7 +241,7 @@ func init() {
 					obs = append(obs, rv)
 				}
 				res.Summary = obs
-				res.Coq = fmt.Sprintf("CCur %s %s %s %s", nlist(l), nlist(in.Ts), nl(init), listl(outs))
+				res.Coq = fmt.Sprintf("CCur %s %s %s %s", nlistCompact(l), nlist(in.Ts), nl(init), listl(outs))
 			case "fc":
 				var cs []be.EntriesCursor
 				nonEmpty := false
@@ -269,4 +295,22 @@ func init() {
 			return
 		},
 	}
+}
+
+// nlistCompact prints a long arithmetic progression as (arith_list n start step) and anything else in full
+func nlistCompact(l []uint64) string {
+	if len(l) > 2000 {
+		step := l[1] - l[0]
+		ok := true
+		for i := 1; i < len(l); i++ {
+			if l[i]-l[i-1] != step {
+				ok = false
+				break
+			}
+		}
+		if ok {
+			return fmt.Sprintf("(arith_list %d %s %s)", len(l), nl(l[0]), nl(step))
+		}
+	}
+	return nlist(l)
 }
